@@ -274,6 +274,15 @@ class Check:
             print("  [%6.1fs] %s (%d paths, %d/%d obligations so far)" % (time.time() - t, label, self.paths, self.discharged, self.obligations), file=sys.stderr)
         return r
 
+    def run_probes(self, label, probe_fn, nat, count):
+        """native probe programs of a unit, run once per check: they decide nothing, but (a) they are the traces against
+        which the stub-level obligations are replayed, and (b) a probe that fails while no obligation is violated means the
+        check has a blind spot - that run is reported as inconclusive, never as a pass"""
+        bad, detail = probe_fn(nat)
+        self.validated += count
+        self.probe_results = getattr(self, "probe_results", [])
+        self.probe_results.append({"unit": label, "failed": bool(bad), "detail": detail[:400]})
+
     def unit(self, name):
         return self.units.setdefault(name, {"paths": 0, "obligations": 0, "discharged": 0, "witnesses": 0, "panic_outcomes": 0})
 
@@ -516,6 +525,9 @@ class Check:
                 lines.append("KNOWN-FINDING: property=%s %s [%s] witness=%s" % (self.pid, f["what"], f["id"], w["inputs"]))
             else:
                 self.notes.append("known finding %s was not observed in this run (tier %s)" % (f["id"], self.tier))
+        for pr in getattr(self, "probe_results", []):
+            if pr["failed"] and not self.violations:
+                self.inconclusive.append("a native probe of %s fails although no obligation is violated (blind spot of this check): %s" % (pr["unit"], pr["detail"]))
         if getattr(self, "partial", False):
             self.inconclusive.append("partial debugging run (VERIF_ONLY set): not a verdict")
         if self.inconclusive and status == 0:
@@ -543,6 +555,7 @@ class Check:
                 "new_violations": self.violations,
                 "inconclusive": self.inconclusive,
                 "validation_mismatches": self.validation_mismatch[:10],
+                "native_probes": getattr(self, "probe_results", []),
                 "notes": self.notes,
                 "exhaustive": False,
             },
